@@ -572,6 +572,10 @@ fn seq_element(rng: &mut Rng, seed: u64, idx: u64, k: u64) -> String {
         "HALT\nadd r0 r0 #1\n",
         "Add R1 R1 #1\nhalt\n",
         "x CALL x\n",
+        // labels that differ in letter case only, and a reference spelled like neither
+        "Loop add r0 r0 #1\nLOOP halt\nld r0 loop\n",
+        "Val .fill x1\nVAL .fill x2\nlea r0 val\nhalt\n",
+        "ptr .fill x1\nbr PTR\n",
     ];
     match rng.below(4) {
         0 | 1 => pk2(rng, TEMPLATES).replace("\\n", "\n"),
